@@ -164,6 +164,27 @@ pub fn f_seg(n: usize) -> Vec<Root> {
     out
 }
 
+/// a small structured family for expensive layers: monotone, constant, alternating, organ-pipe,
+/// one HIGH among LOWs at every position, one LOW among HIGHs at every position
+pub fn f_struct(n: usize) -> Vec<Root> {
+    let mut v: Vec<Vec<i32>> = vec![
+        (0..n).map(|i| 10 * (i as i32 + 1)).collect(),
+        (0..n).map(|i| 10 * (n - i) as i32).collect(),
+        vec![20; n],
+        (0..n).map(|i| if i % 2 == 0 { 10 } else { 30 }).collect(),
+        (0..n).map(|i| if i % 2 == 0 { 30 } else { 10 }).collect(),
+        (0..n).map(|i| 10 * (i.min(n - 1 - i) as i32 + 1)).collect(),
+        (0..n).map(|i| 10 * (n - i.min(n - 1 - i)) as i32).collect(),
+    ];
+    for j in 0..n {
+        v.push((0..n).map(|i| if i == j { 30 } else { 10 }).collect());
+        v.push((0..n).map(|i| if i == j { 10 } else { 30 }).collect());
+    }
+    v.sort();
+    v.dedup();
+    v.iter().map(|p| seed_root(p)).collect()
+}
+
 pub fn seeds_cfg(prop: &'static str, n: usize, prios: &[i32], alphabet: u32) -> Cfg {
     let mut c = base_cfg(prop, n as u32 + 1, prios, alphabet);
     c.root_vec_len = 0;
@@ -342,7 +363,7 @@ pub fn run_probe_property<H: HB>(prop: &'static str, tier: Tier) -> Outcome {
     out
 }
 
-fn absorb_post(out: &mut Outcome, label: &str, cases: u64, viol: Vec<Case>, t0: Instant, extra: Value) {
+pub fn absorb_post(out: &mut Outcome, label: &str, cases: u64, viol: Vec<Case>, t0: Instant, extra: Value) {
     out.transitions += cases;
     out.validated += cases;
     out.layers.push(json!({"layer": label, "cases": cases, "wall_s": t0.elapsed().as_secs_f64(), "detail": extra}));
@@ -426,10 +447,10 @@ pub fn run_c07<H: HB>(tier: Tier) -> Outcome {
         let (cases, viol) = crate::post::par_each(seqs.len() * 2, th, |i| {
             let d = i % 2 == 1;
             let s = &seqs[i / 2];
-            crate::crash::set_case(|| Case { prop: prop.into(), hasher: H::NAME.into(), double: d, root: Root::FromIter(s.clone(), Hint { lo: 0, hi: None }), ops: vec![], last: None, probe: Some("from_iter-differential".into()), detail: String::new(), universe: uni.clone(), aux: None });
+            crate::crash::set_case(|| Case { prop: prop.into(), hasher: H::NAME.into(), double: d, root: Root::FromIter(s.clone(), Hint { lo: 0, hi: None }), ops: vec![], last: None, probe: Some("from_iter-differential".into()), detail: String::new(), universe: uni.clone(), aux: None, trail: vec![] });
             crate::post::from_iter_differential::<H>(d, &uni, s, true).map_err(|(r, e)| Case {
                 prop: prop.into(), hasher: H::NAME.into(), double: d, root: r, ops: vec![], last: None,
-                probe: Some("from_iter-differential".into()), detail: e, universe: uni.clone(), aux: None,
+                probe: Some("from_iter-differential".into()), detail: e, universe: uni.clone(), aux: None, trail: vec![],
             })
         });
         absorb_post(&mut out, "FromIterator: same vectors x every legal size_hint, differential over hints", cases, viol, t0, json!({"sequences": seqs.len(), "hints_per_sequence": crate::post::hint_menu(2, true).len()}));
@@ -550,9 +571,104 @@ pub fn run_c07<H: HB>(tier: Tier) -> Outcome {
     out
 }
 
+pub fn run_c10<H: HB>(tier: Tier) -> Outcome {
+    use crate::e3::*;
+    let prop = "C10";
+    let mut out = Outcome::new();
+    let q = tier == Tier::Quick;
+    let fault_alpha = A_CORE | A_BULK | A_CLONE | A_BORROWED | A_ITER_MUT_BACK | A_ITER_MUT_FORGET | A_DRAIN_FORGET | A_CAPACITY;
+    let cont_alpha = A_PUSH | A_CHANGE | A_REMOVE | A_POP | A_POP_IF | A_RETAIN | A_ITER_MUT | A_EXTEND | A_APPEND | A_CLEAR_DRAIN | A_CLONE | A_CONVERT | A_CAPACITY;
+    let mut layers: Vec<(String, Cfg, Vec<(bool, Root)>, Option<u64>, Cfg)> = vec![];
+    {
+        let (k, m) = if q { (3u32, 2usize) } else { (3, 3) };
+        let prios: Vec<i32> = (0..m as i32).collect();
+        let cfg = base_cfg(prop, k, &prios, A_REACH);
+        let mut roots = vec![];
+        for d in [false, true] {
+            for r in roots_for(&cfg) {
+                roots.push((d, r));
+            }
+        }
+        let mut cont = base_cfg(prop, k, &prios[..2.min(prios.len())], cont_alpha);
+        cont.append_max = 1;
+        layers.push((format!("every E1 state ({k} items x {m} priorities)"), cfg, roots, None, cont));
+    }
+    for n in if q { vec![7usize, 8] } else { vec![7, 8, 9, 16] } {
+        let cfg = seeds_cfg(prop, n, &[5, 15, 35], A_REACH);
+        let seeds = if q { f_struct(n) } else { f_seg(n) };
+        let mut roots = vec![];
+        for d in [false, true] {
+            for s in &seeds {
+                roots.push((d, s.clone()));
+            }
+        }
+        let cont = seeds_cfg(prop, n, &[5, 35], A_PUSH | A_CHANGE | A_REMOVE | A_POP | A_CLEAR_DRAIN | A_CONVERT | A_CLONE);
+        layers.push((format!("every seed of {n} elements"), cfg, roots, Some(0), cont));
+    }
+    for (label, cfg, roots, depth, cont_cfg) in layers {
+        let t0 = Instant::now();
+        let mut ex = Explorer::<H>::new(&cfg);
+        ex.collect = Some(Default::default());
+        ex.run(roots, depth);
+        let nodes = ex.collect.take().unwrap().into_inner().unwrap();
+        out.absorb(&format!("fault-free base states: {label}"), &ex, t0);
+        if !out.violations.is_empty() {
+            return out;
+        }
+        let mut fault_cfg = cfg.clone();
+        let deep = cfg.k > 6;
+        fault_cfg.alphabet = if deep { fault_alpha & !(A_EXTEND | A_CAPACITY | A_BORROWED) } else { fault_alpha };
+        let e3cfg = E3Cfg { prop, fault_cfg, cont_cfg, max_faults: if q || deep { 1 } else { 2 }, depth: if deep { if q { 1 } else { 2 } } else if q { 2 } else { 3 }, threads: threads(), max_states: if q { 400_000 } else { 20_000_000 }, max_wall_s: if q { 40.0 } else { 1500.0 } };
+        let e3 = E3::<H>::new(&e3cfg);
+        let bases: Vec<FNode<H>> = nodes.iter().map(|n| FNode { q: n.q.clone(), faults: 0, depth: 0, base: std::sync::Arc::new((n.root.0, n.root.1.clone(), n.ops())), trail: None }).collect();
+        let t0 = Instant::now();
+        e3.run(bases);
+        let st = &e3.stats;
+        let trans = st.transitions.load(AO::Relaxed);
+        out.states += st.post_fault_states.load(AO::Relaxed);
+        out.transitions += trans;
+        out.validated += trans;
+        out.distinct_outcomes += st.outcomes.lock().unwrap().len() as u64;
+        let per_class: serde_json::Map<String, Value> = (0..NCLASS).map(|c| (CLASS_NAMES[c].to_string(), json!(st.per_class[c].load(AO::Relaxed)))).collect();
+        out.layers.push(json!({
+            "layer": format!("E3 fault enumeration from {label}"),
+            "base_states": st.base_states.load(AO::Relaxed),
+            "crash_points_enumerated": st.fault_points.load(AO::Relaxed),
+            "crash_points_per_callback_class": per_class,
+            "faults_that_fired": st.faults_fired.load(AO::Relaxed),
+            "unique_post_fault_states": st.post_fault_states.load(AO::Relaxed),
+            "transitions_incl_continuations": trans,
+            "continuation_panics_caught": st.cont_panics.load(AO::Relaxed),
+            "leaked_iterator_cases": st.leaked_iter_cases.load(AO::Relaxed),
+            "max_faults_per_path": e3cfg.max_faults,
+            "continuation_depth": e3cfg.depth,
+            "cap_hit": st.capped.load(AO::Relaxed),
+            "wall_s": t0.elapsed().as_secs_f64(),
+        }));
+        for s in st.samples.lock().unwrap().iter().take(2) {
+            out.samples.push(json!(s));
+        }
+        if st.capped.load(AO::Relaxed) {
+            out.exhaustive = false;
+        }
+        let mut v = e3.violations.lock().unwrap();
+        for c in v.drain(..) {
+            if !out.violations.iter().any(|x| x.signature() == c.signature()) {
+                out.violations.push(c);
+            }
+        }
+        if !out.violations.is_empty() {
+            return out;
+        }
+    }
+    out
+}
+
 pub fn run_property(prop: &str, tier: Tier) -> Outcome {
     match prop {
+        "C10" => run_c10::<FnvBuild>(tier),
         "C07" => run_c07::<FnvBuild>(tier),
+        "C15" => crate::c15::run_c15::<FnvBuild>(tier),
         "C06" => run_probe_property::<FnvBuild>("C06", tier),
         "C09" => run_probe_property::<FnvBuild>("C09", tier),
         "C13" => run_probe_property::<FnvBuild>("C13", tier),
